@@ -141,8 +141,8 @@ class C12(Prop):
                    "outcome_value", "outcome_response", "outcome_http_4xx", "outcome_disconnect", "body_shorter_than_declared",
                    "field_path", "field_query", "field_header", "field_body", "field_part", "fault_free_run",
                    "corrupted_at_source_content_length_recomputed") + tuple("target_" + n for _, n in TARGETS)
-    quick_runs = 600000
-    thorough_runs = 6000000
+    quick_runs = 800000
+    thorough_runs = 8000000
     batch = 1000
 
     # -----------------------------------------------------------------------------------------
